@@ -1354,11 +1354,12 @@ class Context:
             return value
         if isinstance(value, list):
             arr = JSArray()
+            arr._prototype = self._array_prototype
             for elem in value:
                 arr.push(self._to_js(elem))
             return arr
         if isinstance(value, dict):
-            obj = JSObject()
+            obj = JSObject(self._object_prototype)
             for k, v in value.items():
                 obj.set(str(k), self._to_js(v))
             return obj
